@@ -11,6 +11,8 @@ import (
 	"os/exec"
 	"strconv"
 	"strings"
+	"sync"
+	"syscall"
 	"time"
 
 	"github.com/hedzr/is"
@@ -82,6 +84,14 @@ type adEvent struct {
 	Sev    int    `json:"sev"`
 	F      string `json:"f"`
 	Direct bool   `json:"direct"`
+	// Nested: the outer record (V, Sh, Via, T, Mi) goes through handler H; its first attribute - the carrier Car,
+	// yielding a value of kind K / id Cv - logs the inner record Q through handler H2 (0 = another handler
+	// made for the same logger) whenever it is asked for its content
+	H2  int       `json:"h2"`
+	Car string    `json:"car"`
+	K   string    `json:"k"`
+	Cv  int       `json:"cv"`
+	Q   *adpInner `json:"q"`
 	// Register: RegisterLevel(Val, Title, options)
 	Val   int      `json:"val"`
 	Title string   `json:"title"`
@@ -90,8 +100,37 @@ type adEvent struct {
 	Tags  []string `json:"tags"`  // empty, or the 6 short tags (index = length)
 }
 
+// adpInner: the record a carrier logs (as in a Handle event)
+type adpInner struct {
+	V   int    `json:"v"`
+	Sh  int    `json:"sh"`
+	Via string `json:"via"`
+	T   int    `json:"t"`
+	Mi  int    `json:"mi"`
+}
+
+// adpTime is one catalogue record time (spec/Adapter.tla, RECORD TIMES): the civil date and time as the
+// caller expresses them (Y..Ss, N nanoseconds) in a zone Off seconds east of UTC; D (days since 0001-01-01)
+// and S (second of that day) say the same to TLC and are cross-checked here.  Kind "zero" is the zero
+// time.Time itself, "zero-zone" the zero time.Time moved to another zone (still IsZero()), "epoch"
+// time.Unix(0, 0) in the zone.
+type adpTime struct {
+	Kind string `json:"kind"`
+	Y    int    `json:"y"`
+	Mo   int    `json:"mo"`
+	Dd   int    `json:"dd"`
+	Hh   int    `json:"hh"`
+	Mm   int    `json:"mm"`
+	Ss   int    `json:"ss"`
+	N    int    `json:"n"`
+	Off  int    `json:"off"`
+	D    int    `json:"d"`
+	S    int    `json:"s"`
+}
+
 type adScript struct {
 	Seed        int         `json:"seed"`
+	RecTimes    []adpTime   `json:"rec_times"`
 	PkgLevel    int         `json:"pkg_level"`
 	Opts        []adOpt     `json:"opts"`
 	RecShapes   []adShape   `json:"rec_shapes"`
@@ -110,18 +149,30 @@ type adObsLeaf struct {
 	V    int      `json:"v"`
 }
 
+// adpObsTime: the printed time read back - Now: inside the call window; Ok: it could be parsed; D, S, N: the
+// instant in UTC (days since 0001-01-01, second of the day, nanosecond); Text: as printed
+type adpObsTime struct {
+	Now  bool   `json:"now"`
+	Ok   bool   `json:"ok"`
+	D    int    `json:"d"`
+	S    int    `json:"s"`
+	N    int    `json:"n"`
+	Text string `json:"text"`
+}
+
 type adObsRec struct {
 	W      int         `json:"w"`
 	Fmt    string      `json:"fmt"`
 	Sev    int         `json:"sev"`
 	Msg    []int       `json:"msg"`
-	T      int         `json:"t"`
+	T      adpObsTime  `json:"t"`
 	Leaves []adObsLeaf `json:"leaves"`
 }
 
 type adRun struct {
 	sc       *adScript
 	logger   slog.Logger
+	opt      adOpt             // the options of the behaviour's NewSlogHandler call
 	handlers []logslog.Handler // index 0 unused
 	bridge   *log.Logger
 	cat      []adLeaf // every (kind, id) used by any shape: the decoding catalogue
@@ -138,8 +189,9 @@ func adMain(args []string) int {
 	}
 	var sc adScript
 	readJSON(args[0], &sc)
-	out := newTraceOut(args[1])
+	out := &adpOut{t: newTraceOut(args[1])}
 	defer out.close()
+	go out.watch()
 	r := &adRun{sc: &sc, lvlNames: map[string]int{}, lvlTags: map[string]int{}}
 	for i := 0; i < 12; i++ {
 		r.lvlNames[slog.Level(i).String()] = i
@@ -177,7 +229,7 @@ func adMain(args []string) int {
 				fmt.Fprintf(os.Stderr, "adapter: child trace of behaviour %d: %v\n", bi, err)
 				return 3
 			}
-			out.bw.Write(b)
+			out.raw(b)
 			os.Remove(k.trace)
 			os.Remove(k.script)
 			out.emit(map[string]any{"op": "Proc"}) // back in this process, which never registers anything
@@ -186,11 +238,132 @@ func adMain(args []string) int {
 		r.reset()
 		out.emit(map[string]any{"op": "Reset"})
 		for _, ev := range beh {
-			out.emit(r.exec(ev))
+			out.begin(r, ev)
+			rec := r.exec(ev)
+			out.end(rec)
 		}
 	}
 	slog.SetFlags(saved)
 	return 0
+}
+
+// adpOut is the trace writer plus the WATCHDOG.  A call that does not come back is recorded as such (a line
+// with "hang": the trace specification rejects it) and the process ends - the goroutine is lost for good.
+// "Does not come back" = the call has been running for at least 30 s and during the last 30 s the whole
+// process used next to no CPU time (it is blocked: a deadlock) although it could run (this watchdog itself
+// was scheduled at least 10 times in those 30 s - a process that was frozen or starved has not made progress
+// either, but is not blocked), or it has been running for 15 minutes whatever it does.  A slow call on a busy
+// machine is neither: it uses CPU whenever it gets some.
+type adpOut struct {
+	mu      sync.Mutex
+	t       *traceOut
+	run     *adRun
+	ev      adEvent
+	running bool
+	start   time.Time
+	samples []adpSample // (time, process CPU) every 2 s while a call is running
+}
+
+type adpSample struct {
+	at  time.Time
+	cpu time.Duration
+}
+
+const (
+	adpHangIdle    = 30 * time.Second
+	adpHangIdleCPU = 500 * time.Millisecond
+	adpHangHard    = 15 * time.Minute
+	adpHangTicks   = 10 // of the 2-second ticks of the watchdog that fell into the last 30 s
+)
+
+// adpCPU: user + system CPU time this process has used so far
+func adpCPU() time.Duration {
+	var ru syscall.Rusage
+	if syscall.Getrusage(syscall.RUSAGE_SELF, &ru) != nil {
+		return 0
+	}
+	return time.Duration(ru.Utime.Nano() + ru.Stime.Nano())
+}
+
+func (o *adpOut) emit(v any)   { o.mu.Lock(); o.t.emit(v); o.mu.Unlock() }
+func (o *adpOut) raw(b []byte) { o.mu.Lock(); o.t.bw.Write(b); o.mu.Unlock() }
+func (o *adpOut) close()       { o.mu.Lock(); o.t.close(); o.mu.Unlock() }
+
+func (o *adpOut) begin(r *adRun, ev adEvent) {
+	o.mu.Lock()
+	o.run, o.ev, o.running, o.start = r, ev, true, time.Now()
+	o.samples = append(o.samples[:0], adpSample{o.start, adpCPU()})
+	o.mu.Unlock()
+}
+
+func (o *adpOut) end(rec map[string]any) {
+	o.mu.Lock()
+	o.running = false
+	o.t.emit(rec)
+	o.mu.Unlock()
+}
+
+func (o *adpOut) watch() {
+	tick := time.NewTicker(2 * time.Second)
+	defer tick.Stop()
+	for range tick.C {
+		o.mu.Lock()
+		if o.running {
+			now, cpu := time.Now(), adpCPU()
+			o.samples = append(o.samples, adpSample{now, cpu})
+			wall := now.Sub(o.start)
+			idle, used := false, time.Duration(0)
+			// the youngest sample that is at least 30 s old: how much CPU has the process used since?
+			for i := len(o.samples) - 1; i >= 0; i-- {
+				if now.Sub(o.samples[i].at) >= adpHangIdle {
+					used = cpu - o.samples[i].cpu
+					idle = used < adpHangIdleCPU && len(o.samples)-1-i >= adpHangTicks
+					o.samples = o.samples[i:]
+					break
+				}
+			}
+			if idle || wall >= adpHangHard {
+				rec := adpArgs(o.ev)
+				rec["hang"] = true
+				rec["wall_s"] = int(wall.Seconds())
+				rec["cpu_ms_last_30s"] = int(used.Milliseconds())
+				rec["recs"] = o.run.takeRecs(time.Time{}, time.Time{}) // what reached a writer before it stopped
+				o.t.emit(rec)
+				o.t.close()
+				os.Exit(0)
+			}
+		}
+		o.mu.Unlock()
+	}
+}
+
+// adpArgs: the line of a call, so far: the call and its arguments
+func adpArgs(ev adEvent) map[string]any {
+	rec := map[string]any{"op": ev.Op}
+	switch ev.Op {
+	case "NewHandler":
+		rec["L"], rec["oi"] = ev.L, ev.Oi
+	case "WithAttrs":
+		rec["h"], rec["a"] = ev.H, ev.A
+	case "WithGroup":
+		rec["h"], rec["g"] = ev.H, ev.G
+	case "Enabled":
+		rec["h"], rec["v"] = ev.H, ev.V
+	case "Handle":
+		rec["h"], rec["v"], rec["sh"], rec["via"], rec["t"], rec["mi"] = ev.H, ev.V, ev.Sh, ev.Via, ev.T, ev.Mi
+	case "Nested":
+		rec["h"], rec["v"], rec["sh"], rec["via"], rec["t"], rec["mi"] = ev.H, ev.V, ev.Sh, ev.Via, ev.T, ev.Mi
+		rec["h2"], rec["car"], rec["k"], rec["cv"], rec["q"] = ev.H2, ev.Car, ev.K, ev.Cv, ev.Q
+	case "EntryLog":
+		rec["v"], rec["mi"] = ev.V, ev.Mi
+	case "Register":
+		rec["val"], rec["treat"], rec["err"], rec["title"] = ev.Val, ev.Treat, ev.Err, ev.Title
+	case "NewBridge":
+		rec["L"], rec["sev"], rec["f"] = ev.L, ev.Sev, ev.F
+	case "Bridge":
+		rec["mi"], rec["direct"] = ev.Mi, ev.Direct
+	}
+	return rec
 }
 
 type adpChild struct {
@@ -328,10 +501,51 @@ func (r *adRun) vTime(id int) time.Time {
 func (r *adRun) vAny(id int) string { return fmt.Sprintf("any%dx", id+r.off()) }
 func (r *adRun) vErr(id int) string { return fmt.Sprintf("err%dx", id+r.off()) }
 
-// record times: catalogue instants far from "now", in several zones, with nanoseconds
+// record times: the catalogue entry id (1-based) as a time.Time, made the way its kind says
 func (r *adRun) recTime(id int) time.Time {
-	return time.Date(2001+id, time.Month(1+(id*5)%12), 1+(id*3)%28, (id*7)%24, (id*11)%60, (id*13)%60,
-		123456789+id+r.sc.Seed, time.FixedZone("q", ((id%7)-3)*1800))
+	tm := r.sc.RecTimes[id-1]
+	zone := time.UTC
+	if tm.Off != 0 {
+		zone = time.FixedZone(fmt.Sprintf("q%d", tm.Off), tm.Off)
+	}
+	var t time.Time
+	switch tm.Kind {
+	case "zero":
+		t = time.Time{}
+	case "zero-zone":
+		t = time.Time{}.In(zone)
+	case "epoch":
+		t = time.Unix(0, 0).In(zone)
+	default:
+		t = time.Date(tm.Y, time.Month(tm.Mo), tm.Dd, tm.Hh, tm.Mm, tm.Ss, tm.N, zone)
+	}
+	// the entry's [d, s, n, off] - what TLC computes the expected instant from - must describe this very time
+	_, off := t.Zone()
+	if off != tm.Off || t.Nanosecond() != tm.N || t.Unix()+adpSecsToUnix != int64(tm.D)*86400+int64(tm.S)-int64(tm.Off) ||
+		(strings.HasPrefix(tm.Kind, "zero") != t.IsZero()) {
+		fmt.Fprintf(os.Stderr, "adapter: record time %d (%+v) is not what its catalogue entry says: %s\n", id, tm, t.Format(time.RFC3339Nano))
+		os.Exit(3)
+	}
+	return t
+}
+
+// seconds from 0001-01-01T00:00:00Z to the Unix epoch
+const adpSecsToUnix = 62135596800
+
+// adpReadTime reads a printed time back: the instant in UTC, and whether it lies in the call window
+func adpReadTime(ts string, t0, t1 time.Time) adpObsTime {
+	o := adpObsTime{Text: ts}
+	tm, err := time.Parse(time.RFC3339Nano, ts)
+	if err != nil {
+		return o
+	}
+	secs := tm.Unix() + adpSecsToUnix
+	if secs < 0 {
+		return o
+	}
+	o.Ok, o.D, o.S, o.N = true, int(secs/86400), int(secs%86400), tm.Nanosecond()
+	o.Now = !t0.IsZero() && !tm.Before(t0.Truncate(time.Microsecond)) && !tm.After(t1)
+	return o
 }
 
 func (r *adRun) leafAttr(key string, lf adLeaf) logslog.Attr {
@@ -430,7 +644,7 @@ func (r *adRun) fmtObs() string {
 type adCtxKey struct{}
 
 func (r *adRun) exec(ev adEvent) (rec map[string]any) {
-	rec = map[string]any{"op": ev.Op}
+	rec = adpArgs(ev)
 	defer func() {
 		if p := recover(); p != nil {
 			rec["panic"] = fmt.Sprint(p)
@@ -463,6 +677,7 @@ func (r *adRun) exec(ev adEvent) (rec map[string]any) {
 	case "NewHandler":
 		rec["L"], rec["oi"] = ev.L, ev.Oi
 		o := r.sc.Opts[ev.Oi-1]
+		r.opt = o
 		r.logger = r.newLogger(ev.L)
 		h := slog.NewSlogHandler(r.logger, &slog.HandlerOptions{NoColor: o.NoColor, NoSource: o.NoSource, JSON: o.JSON, Level: slog.Level(o.Level)})
 		r.handlers = append(r.handlers, h)
@@ -507,6 +722,40 @@ func (r *adRun) exec(ev adEvent) (rec map[string]any) {
 				rec["err"] = err.Error()
 			}
 		}
+		rec["recs"] = r.takeRecs(t0, time.Now())
+	case "Nested":
+		h := r.handlers[ev.H]
+		target := logslog.Handler(nil)
+		if ev.H2 == 0 { // another handler on the same logger: NewSlogHandler once more, same options
+			o := r.opt
+			target = slog.NewSlogHandler(r.logger, &slog.HandlerOptions{NoColor: o.NoColor, NoSource: o.NoSource, JSON: o.JSON, Level: slog.Level(o.Level)})
+			rec["lvl"] = int(r.logger.Level())
+			rec["fmtobs"] = r.fmtObs()
+			rec["caller"] = slog.IsAnyBitsSet(slog.Lcaller)
+			rec["dbg"] = is.DebugMode()
+		} else {
+			target = r.handlers[ev.H2]
+		}
+		lvl := logslog.Level(ev.V)
+		msg := string(adBytes(r.sc.HMsgs[ev.Mi-1]))
+		r.know(adLeaf{K: ev.K, V: ev.Cv})
+		nest := &adpNest{r: r, target: target, ctx: ctx, q: *ev.Q}
+		attrs := append([]logslog.Attr{r.carrier(ev, nest)}, r.shapeAttrs(r.sc.RecShapes[ev.Sh-1])...)
+		en := h.Enabled(ctx, lvl)
+		rec["en"] = en
+		rec["en2"] = target.Enabled(ctx, logslog.Level(ev.Q.V))
+		sink.reset()
+		t0 := time.Now()
+		if ev.Via == "logger" {
+			logslog.New(h).LogAttrs(ctx, lvl, msg, attrs...)
+		} else if en {
+			rc := logslog.NewRecord(r.recTime(ev.T), lvl, msg, 0)
+			rc.AddAttrs(attrs...)
+			if err := h.Handle(ctx, rc); err != nil {
+				rec["err"] = err.Error()
+			}
+		}
+		rec["calls"] = nest.calls
 		rec["recs"] = r.takeRecs(t0, time.Now())
 	case "EntryLog":
 		rec["v"], rec["mi"] = ev.V, ev.Mi
@@ -577,6 +826,70 @@ func (r *adRun) exec(ev adEvent) (rec map[string]any) {
 	return rec
 }
 
+// adpNest is one nested call: every time the carrier is asked for its content it logs the inner record q
+// through the target handler first - while the outer record is being handled.
+type adpNest struct {
+	r      *adRun
+	target logslog.Handler
+	ctx    context.Context
+	q      adpInner
+	calls  int
+}
+
+func (n *adpNest) fire() {
+	n.calls++
+	if n.calls > 20 { // (never seen) asked over and over: enough inner records to tell
+		return
+	}
+	lvl := logslog.Level(n.q.V)
+	msg := string(adBytes(n.r.sc.HMsgs[n.q.Mi-1]))
+	attrs := n.r.shapeAttrs(n.r.sc.RecShapes[n.q.Sh-1])
+	if n.q.Via == "logger" {
+		logslog.New(n.target).LogAttrs(n.ctx, lvl, msg, attrs...)
+	} else if n.target.Enabled(n.ctx, lvl) {
+		rc := logslog.NewRecord(n.r.recTime(n.q.T), lvl, msg, 0)
+		rc.AddAttrs(attrs...)
+		_ = n.target.Handle(n.ctx, rc)
+	}
+}
+
+type adpCarValuer struct {
+	n *adpNest
+	v logslog.Value
+}
+
+func (c adpCarValuer) LogValue() logslog.Value { c.n.fire(); return c.v }
+
+// B is exported: however the underlying logger prints a value of kind Any, the text is in it
+type adpCarStringer struct {
+	B string
+	n *adpNest
+}
+
+func (c adpCarStringer) String() string { c.n.fire(); return c.B }
+
+type adpCarError struct {
+	B string
+	n *adpNest
+}
+
+func (c *adpCarError) Error() string { c.n.fire(); return c.B }
+
+// carrier builds the first attribute of a nested call's outer record (Adapter!CarrierLeaves).
+func (r *adRun) carrier(ev adEvent, n *adpNest) logslog.Attr {
+	switch ev.Car {
+	case "valuer":
+		return logslog.Any("nq", adpCarValuer{n, r.leafAttr("nq", adLeaf{K: ev.K, V: ev.Cv}).Value})
+	case "valuer-group":
+		return logslog.Any("zzq", adpCarValuer{n, logslog.GroupValue(r.leafAttr("id", adLeaf{K: ev.K, V: ev.Cv}))})
+	case "stringer":
+		return logslog.Any("nq", adpCarStringer{r.vAny(ev.Cv), n})
+	case "error":
+		return logslog.Any("nq", &adpCarError{r.vErr(ev.Cv), n})
+	}
+	panic("unknown carrier " + ev.Car)
+}
+
 func (r *adRun) takeRecs(t0, t1 time.Time) []adObsRec {
 	res := []adObsRec{}
 	for _, e := range sink.take() {
@@ -599,7 +912,7 @@ type adTok struct {
 }
 
 func (r *adRun) decode(w int, p []byte, t0, t1 time.Time) adObsRec {
-	o := adObsRec{W: w, Sev: -1, T: -1, Msg: []int{}, Leaves: []adObsLeaf{}}
+	o := adObsRec{W: w, Sev: -1, Msg: []int{}, Leaves: []adObsLeaf{}}
 	s := string(p)
 	var toks []adTok
 	var ts, lvl string
@@ -666,19 +979,8 @@ func (r *adRun) decode(w int, p []byte, t0, t1 time.Time) adObsRec {
 			o.Sev = v
 		}
 	}
-	// time: which catalogue instant, or inside the call window
-	if tm, err := time.Parse(time.RFC3339Nano, ts); err == nil {
-		if !t0.IsZero() && !tm.Before(t0.Truncate(time.Microsecond)) && !tm.After(t1) {
-			o.T = 0
-		} else {
-			for id := 1; id <= 40; id++ {
-				if tm.Equal(r.recTime(id)) {
-					o.T = id
-					break
-				}
-			}
-		}
-	}
+	// time: the instant printed, and whether it lies inside the call window
+	o.T = adpReadTime(ts, t0, t1)
 	for _, t := range toks {
 		kind, v := r.identify(t)
 		p := t.path
@@ -692,6 +994,16 @@ func (r *adRun) decode(w int, p []byte, t0, t1 time.Time) adObsRec {
 		o.Leaves = append(o.Leaves, adObsLeaf{K: t.key, P: p, M: m, Kind: kind, V: v})
 	}
 	return o
+}
+
+// know adds a value to the decoding catalogue.
+func (r *adRun) know(lf adLeaf) {
+	for _, c := range r.cat {
+		if c.K == lf.K && c.V == lf.V {
+			return
+		}
+	}
+	r.cat = append(r.cat, adLeaf{K: lf.K, V: lf.V})
 }
 
 // identify says which catalogue value a printed token denotes.
